@@ -453,7 +453,11 @@ func (db *DB) search(o Object, field, operator string, value interface{}, constr
 		}
 		return &Search{db: db, err: err}
 	} else {
-		return newSearch(db, o, f, err)
+		// the Search must own its results: the slices returned by the index are
+		// windows on the live index, later writes (or Search.Or) would change them
+		owned := make([]*indexedField, len(f))
+		copy(owned, f)
+		return newSearch(db, o, owned, err)
 	}
 }
 
